@@ -55,6 +55,7 @@ type Sched struct {
 	MaxSteps   int
 	// per-run site mask: a Yield site is a switch point iff hash(site)%16 < Level
 	Level    uint32
+	Stmt     bool // statement-level yield sites (":stmt") are switch points too
 	Deadlock bool
 	Overrun  bool
 	pick     func(runnable []int, last int) int
@@ -156,6 +157,9 @@ func handoff(kind byte, site string) {
 func Yield(site string) {
 	s := active
 	if cur == nil || s == nil {
+		return
+	}
+	if n := len(site); n > 5 && site[n-5:] == ":stmt" && !s.Stmt {
 		return
 	}
 	if s.Level < 16 && fnv(site)%16 >= s.Level {
